@@ -75,6 +75,7 @@ CERT_ORIGIN_OK = {"id": "origin-ok", "trusted": True, "names": _ORIGIN_NAMES, "i
 CERT_ORIGIN_UNTRUSTED = {"id": "origin-untrusted", "trusted": False, "names": _ORIGIN_NAMES, "ips": _ORIGIN_IPS}
 # the name-mismatch certificates are the *other party's* good certificate: a client that
 # verifies a layer against the wrong party's name accepts exactly these
+SNI_OVERRIDE = "dest.test"  # a name of the origin's certificate, never of the proxy's
 CERT_PROXY_MISMATCH = dict(CERT_ORIGIN_OK, id="proxy-presents-origin-cert")
 CERT_ORIGIN_MISMATCH = dict(CERT_PROXY_OK, id="origin-presents-proxy-cert")
 
@@ -206,6 +207,10 @@ def run_case(cfg):
             ctx = create_urllib3_context()
             ctx._mc_domains = ("private", "public")
             kw = {"ssl_context": ctx}
+        if cfg.get("ctx") == "sni-override":
+            # the caller names the destination's certificate (server_hostname=): that name belongs to the handshake
+            # INSIDE the tunnel only - the proxy's own leg is still verified against the proxy's host
+            kw = {"server_hostname": SNI_OVERRIDE}
         pm = urllib3.ProxyManager(purl, proxy_headers=PROXY_HEADERS[cfg["ph"]],
                                   use_forwarding_for_https=cfg["fwd"], **kw)
         try:
@@ -253,6 +258,8 @@ def judge(cfg, net, world, results, spans, acc):
     mode = ref_mode(ps, ds, cfg["fwd"])
     pl = 1 if ps == "https" else 0  # TLS nesting at which the proxy itself is addressed
     _, _, host_spellings, sni = HOSTFORMS[cfg["hf"]]
+    if cfg.get("ctx") == "sni-override":
+        sni = SNI_OVERRIDE
     port = ref_port(cfg["hf"], ds)
     ph = PROXY_HEADERS[cfg["ph"]] or {}
     rh = REQUEST_HEADERS[cfg["rh"]] or {}
@@ -627,6 +634,8 @@ def cases_of(task):
                        "hf": hf, "hist": hist, "retries": retries}
     for cfg in _shared_ctx_cases(task):
         yield cfg
+    for cfg in _sni_override_cases(task):
+        yield cfg
 
 
 SHARED_CTX_HISTORIES = ["K", "CK"]
@@ -648,6 +657,19 @@ def _shared_ctx_cases(task):
                        "hf": hf, "hist": hist, "retries": False, "ctx": "origin-private"}
 
 
+def _sni_override_cases(task):
+    """tunnelled https destination with server_hostname= given by the caller (wave-6 change w6_c09_m1 used the
+    override for the TLS leg to an https proxy as well): every row of the tunnel mode, both proxy schemes, the
+    host written as a name and as an address (for the address the override is what makes the origin verifiable)"""
+    (ps, ds, fwd, fault, cok), fat, ph, rh, thorough = task
+    if ref_mode(ps, ds, fwd) != "tunnel" or ph != "none" or rh != "none" or cok != "200":
+        return
+    for hf in ("name", "ipv4"):
+        for hist in (SHARED_CTX_HISTORIES if fat != "all" else ["K"]):
+            yield {"ps": ps, "ds": ds, "fwd": fwd, "fault": fault, "fat": fat, "cok": cok, "ph": ph, "rh": rh,
+                   "hf": hf, "hist": hist, "retries": False, "ctx": "sni-override"}
+
+
 QUICK_SHORT_HISTORIES = ["K", "C", "S", "KK", "CK", "SK"]
 
 
@@ -659,7 +681,7 @@ def _hists(thorough, fat, hf):
 def size_of(task):
     _row, fat, _ph, _rh, thorough = task
     hfs = list(HOSTFORMS) if thorough else QUICK_HOSTFORMS
-    return sum(len(_hists(thorough, fat, hf)) for hf in hfs) * (3 if thorough else 2) + len(list(_shared_ctx_cases(task)))
+    return sum(len(_hists(thorough, fat, hf)) for hf in hfs) * (3 if thorough else 2) + len(list(_shared_ctx_cases(task))) + len(list(_sni_override_cases(task)))
 
 
 def _worker(task):
